@@ -73,7 +73,9 @@ def gen(rng, idx, tier, seed):
                 'via': ['method', 'stack_files', 'method', 'pncmfopen',
                         'method', 'open_mfdataset'][(idx // 4) % 6],
                 # file names whose sorted order differs from argument order
-                'labels': [int(x) for x in rng.permutation(12)[:k]]}
+                'labels': [int(x) for x in rng.permutation(12)[:k]],
+                # one path given twice (a, b, a): every mention is a piece
+                'repeat': bool(rng.random() < 0.3)}
     n = [d[1] for d in fs['dims'] if d[0] == dim][0]
     return {'mode': mode, 'file': fs, 'dim': dim,
             'parts': partition(rng, n)}
@@ -166,6 +168,10 @@ def run_concat_disk(spec, res, files, snaps0):
                 g = h.keep(pnc.pncopen(p, format='netcdf'))
                 snaps.append(snapshot.snap_file(g))
                 g.close()
+            if spec.get('repeat'):
+                paths.append(paths[0])
+                snaps.append(snaps[0])
+                res.facet('repeated-path')
         except Exception as e:
             res.note('disk-pieces-not-writable:%s' % type(e).__name__)
             res.ev(digest(spec), False, ['concat', 'disk-skip'])
